@@ -759,6 +759,7 @@ impl<T: Serialize + for<'de> Deserialize<'de> + Clone + PartialEq + Send + Sync 
         };
 
         // Write batch to WAL
+        let mut wrote_batch_records = false;
         for (key, value) in changes {
             let serialized_value = value
                 .as_ref()
@@ -788,6 +789,25 @@ impl<T: Serialize + for<'de> Deserialize<'de> + Clone + PartialEq + Send + Sync 
 
             // Notify listeners
             self.notify_listeners(&key, value.as_ref()).await;
+            wrote_batch_records = true;
+        }
+
+        // Close the batch in the log: recovery applies the records of a batch only
+        // once it has seen this marker, so a crash in the middle of the loop above
+        // leaves none of the batch behind instead of a part of it.
+        if wrote_batch_records {
+            let commit_marker = self.create_wal_entry(
+                transaction_id,
+                TransactionType::Checkpoint,
+                String::new(),
+                None,
+            )?;
+            let mut writer = self.wal_writer.lock().map_err(|_| {
+                P2PError::Storage(StorageError::LockPoisoned(
+                    "mutex lock failed".to_string().into(),
+                ))
+            })?;
+            writer.write_entry(&commit_marker)?;
         }
 
         Ok(())
@@ -1000,8 +1020,13 @@ impl<T: Serialize + for<'de> Deserialize<'de> + Clone + PartialEq + Send + Sync 
         let wal_files = self.find_wal_files()?;
 
         let current_name = format!("state.{WAL_EXTENSION}");
+        // Batches whose commit marker has not been seen yet (may span files)
+        let mut open_batches: HashMap<u64, Vec<WalEntry>> = HashMap::new();
         for wal_path in wal_files {
-            match self.replay_wal_file(&wal_path, stats).await {
+            match self
+                .replay_wal_file(&wal_path, stats, &mut open_batches)
+                .await
+            {
                 Ok((entries, intact_len)) => {
                     stats.wal_files_processed += 1;
                     stats.entries_recovered += entries;
@@ -1058,6 +1083,7 @@ impl<T: Serialize + for<'de> Deserialize<'de> + Clone + PartialEq + Send + Sync 
         &self,
         path: &Path,
         stats: &mut RecoveryStats,
+        open_batches: &mut HashMap<u64, Vec<WalEntry>>,
     ) -> Result<(u64, u64)> {
         let mut file = File::open(path).map_err(|e| {
             P2PError::Storage(StorageError::Database(
@@ -1134,47 +1160,64 @@ impl<T: Serialize + for<'de> Deserialize<'de> + Clone + PartialEq + Send + Sync 
                 continue;
             }
 
-            // Apply entry to state
-            match entry.transaction_type {
-                // A batch record without a value is a deletion made inside the batch
-                TransactionType::Batch if entry.value.is_none() => {
-                    let mut state_guard = self.state.write().map_err(|_| {
-                        P2PError::Storage(StorageError::LockPoisoned(
-                            "write lock failed".to_string().into(),
-                        ))
-                    })?;
-                    state_guard.remove(&entry.key);
-                    entries_recovered += 1;
+            // Records of a batch wait for the batch's commit marker (a Checkpoint
+            // record carrying the same transaction id); a batch whose marker never
+            // made it into the log is dropped as a whole.
+            let transaction_id = entry.transaction_id;
+            let entries_to_apply = match entry.transaction_type {
+                TransactionType::Batch => {
+                    open_batches.entry(transaction_id).or_default().push(entry);
+                    Vec::new()
                 }
-                TransactionType::Upsert | TransactionType::Batch => {
-                    if let Some(value_data) = entry.value {
-                        match postcard::from_bytes::<T>(&value_data) {
-                            Ok(value) => {
-                                let mut state_guard = self.state.write().map_err(|_| {
-                                    P2PError::Storage(StorageError::LockPoisoned(
-                                        "write lock failed".to_string().into(),
-                                    ))
-                                })?;
-                                state_guard.insert(entry.key, value);
-                                entries_recovered += 1;
-                            }
-                            Err(_) => {
-                                stats.entries_failed += 1;
+                TransactionType::Checkpoint => {
+                    open_batches.remove(&transaction_id).unwrap_or_default()
+                }
+                _ => vec![entry],
+            };
+
+            for entry in entries_to_apply {
+                // Apply entry to state
+                match entry.transaction_type {
+                    // A batch record without a value is a deletion made inside the batch
+                    TransactionType::Batch if entry.value.is_none() => {
+                        let mut state_guard = self.state.write().map_err(|_| {
+                            P2PError::Storage(StorageError::LockPoisoned(
+                                "write lock failed".to_string().into(),
+                            ))
+                        })?;
+                        state_guard.remove(&entry.key);
+                        entries_recovered += 1;
+                    }
+                    TransactionType::Upsert | TransactionType::Batch => {
+                        if let Some(value_data) = entry.value {
+                            match postcard::from_bytes::<T>(&value_data) {
+                                Ok(value) => {
+                                    let mut state_guard = self.state.write().map_err(|_| {
+                                        P2PError::Storage(StorageError::LockPoisoned(
+                                            "write lock failed".to_string().into(),
+                                        ))
+                                    })?;
+                                    state_guard.insert(entry.key, value);
+                                    entries_recovered += 1;
+                                }
+                                Err(_) => {
+                                    stats.entries_failed += 1;
+                                }
                             }
                         }
                     }
-                }
-                TransactionType::Delete => {
-                    let mut state_guard = self.state.write().map_err(|_| {
-                        P2PError::Storage(StorageError::LockPoisoned(
-                            "write lock failed".to_string().into(),
-                        ))
-                    })?;
-                    state_guard.remove(&entry.key);
-                    entries_recovered += 1;
-                }
-                TransactionType::Checkpoint => {
-                    // Checkpoint marker, no action needed
+                    TransactionType::Delete => {
+                        let mut state_guard = self.state.write().map_err(|_| {
+                            P2PError::Storage(StorageError::LockPoisoned(
+                                "write lock failed".to_string().into(),
+                            ))
+                        })?;
+                        state_guard.remove(&entry.key);
+                        entries_recovered += 1;
+                    }
+                    TransactionType::Checkpoint => {
+                        // Checkpoint marker, no action needed
+                    }
                 }
             }
 
@@ -1185,8 +1228,8 @@ impl<T: Serialize + for<'de> Deserialize<'de> + Clone + PartialEq + Send + Sync 
                         "mutex lock failed".to_string().into(),
                     ))
                 })?;
-                if entry.transaction_id > *counter {
-                    *counter = entry.transaction_id;
+                if transaction_id > *counter {
+                    *counter = transaction_id;
                 }
             }
         }
@@ -1328,9 +1371,8 @@ impl<T: Serialize + for<'de> Deserialize<'de> + Clone + PartialEq + Send + Sync 
         let current_name = format!("state.{WAL_EXTENSION}");
         let is_current =
             |path: &PathBuf| path.file_name() == Some(std::ffi::OsStr::new(&current_name));
-        wal_files.sort_by(|a, b| {
-            (is_current(a), a.file_name()).cmp(&(is_current(b), b.file_name()))
-        });
+        wal_files
+            .sort_by(|a, b| (is_current(a), a.file_name()).cmp(&(is_current(b), b.file_name())));
 
         Ok(wal_files)
     }
@@ -1616,7 +1658,7 @@ impl<T: Serialize + for<'de> Deserialize<'de> + Clone + PartialEq + Send + Sync 
     /// Verify WAL file integrity
     async fn verify_wal_integrity(&self, path: &Path) -> Result<u64> {
         let stats = &mut RecoveryStats::default();
-        self.replay_wal_file(path, stats)
+        self.replay_wal_file(path, stats, &mut HashMap::new())
             .await
             .map(|(entries, _)| entries)
     }
